@@ -207,29 +207,39 @@ pub fn main(tier: Tier, replay: Option<Value>) -> i32 {
             for (ci, (cname, data)) in small_set.iter().enumerate() {
                 for (li, larg) in [None, Some("0"), Some("1")].iter().enumerate() {
                     let mut fresh_z: Option<Vec<u8>> = None;
-                    for (pi, (pname, pre_z, pre_plain)) in pre_states.iter().enumerate() {
+                    // explicit output paths, and (one level) the defaulted ones: <input>.zst beside the input, and
+                    // the file stem in the directory decompress is run from
+                    for (pi, explicit, (pname, pre_z, pre_plain)) in pre_states.iter().enumerate().flat_map(|(pi, p)| [(pi, true, p), (pi, false, p)]) {
+                        if !explicit && li != 2 {
+                            continue;
+                        }
                         evals += 1;
                         hist_cases += 1;
-                        let d = root.join(format!("existing-{ci}-{li}-{pi}"));
-                        std::fs::create_dir_all(&d).unwrap();
+                        let d = root.join(format!("existing-{ci}-{li}-{pi}-{}", explicit as u8));
+                        let other = d.join("elsewhere");
+                        std::fs::create_dir_all(&other).unwrap();
                         std::fs::write(d.join("input.dat"), data).unwrap();
+                        let zname = if explicit { "out.zst" } else { "input.dat.zst" };
                         if let Some(p) = pre_z {
-                            std::fs::write(d.join("out.zst"), p).unwrap();
+                            std::fs::write(d.join(zname), p).unwrap();
                         }
-                        let mut args = vec!["compress", "input.dat", "out.zst"];
+                        let mut args = vec!["compress", "input.dat"];
+                        if explicit {
+                            args.push("out.zst");
+                        }
                         if let Some(l) = larg {
                             args.extend_from_slice(&["--level", l]);
                         }
-                        let rp = json!({"content": cname, "args": args, "output_path_before": pname});
+                        let rp = json!({"content": cname, "args": args, "output_path_before": pname, "output_path": if explicit { "explicit" } else { "defaulted" }});
                         let r = run_cli(&cli, &d, &args);
-                        let z = std::fs::read(d.join("out.zst")).ok();
+                        let z = std::fs::read(d.join(zname)).ok();
                         let lname = larg.unwrap_or("absent");
-                        let case = format!("compress [{cname}] level {lname} onto an output path holding: {pname}");
+                        let case = format!("compress [{cname}] level {lname} onto {} output path holding: {pname}", if explicit { "an explicit" } else { "the defaulted" });
                         let Some(z) = z.filter(|_| r.code == Some(0)) else {
                             run.violation(Violation { identity: format!("existing_output:compress_failed:{pname}"), what: format!("{case}: exit status {:?}; stderr: {}", r.code, crate::ev::truncate(r.stderr.trim(), 200)), replay: rp });
                             continue;
                         };
-                        if pi == 0 {
+                        if pi == 0 && explicit {
                             fresh_z = Some(z.clone());
                         }
                         let same_as_fresh = fresh_z.as_ref().map_or(true, |f| *f == z);
@@ -238,11 +248,14 @@ pub fn main(tier: Tier, replay: Option<Value>) -> i32 {
                             run.violation(Violation { identity: format!("existing_output:compress:{pname}"), what: format!("{case}: the file at the output path afterwards ({} bytes) {} and libzstd {} the input from it", z.len(), if same_as_fresh { "equals the fresh-directory result".to_string() } else { format!("differs from the fresh-directory result ({} bytes)", fresh_z.as_ref().map_or(0, |f| f.len())) }, if ref_ok { "restores" } else { "does not restore" }), replay: rp });
                             continue;
                         }
+                        // explicit: target named; defaulted: run from another directory, the target is the file stem there
+                        let (cwd, target, args2): (&Path, PathBuf, Vec<String>) = if explicit { (&d, d.join("restored.dat"), vec!["decompress".into(), "out.zst".into(), "restored.dat".into()]) } else { (&other, other.join("input.dat"), vec!["decompress".into(), d.join(zname).to_string_lossy().to_string()]) };
                         if let Some(p) = pre_plain {
-                            std::fs::write(d.join("restored.dat"), p).unwrap();
+                            std::fs::write(&target, p).unwrap();
                         }
-                        let r2 = run_cli(&cli, &d, &["decompress", "out.zst", "restored.dat"]);
-                        let got = std::fs::read(d.join("restored.dat")).ok();
+                        let a2: Vec<&str> = args2.iter().map(|s| s.as_str()).collect();
+                        let r2 = run_cli(&cli, cwd, &a2);
+                        let got = std::fs::read(&target).ok();
                         if r2.code != Some(0) || got.as_deref() != Some(&data[..]) {
                             run.violation(Violation { identity: format!("existing_output:decompress:{pname}"), what: format!("{case}, then decompress onto a path holding the same kind of content: exit status {:?}, restored file {:?} bytes, original {}; stderr: {}", r2.code, got.map(|g| g.len()), data.len(), crate::ev::truncate(r2.stderr.trim(), 200)), replay: rp });
                         } else {
@@ -329,7 +342,7 @@ pub fn main(tier: Tier, replay: Option<Value>) -> i32 {
     run.set("successful_roundtrips", ok_roundtrips);
     run.set("operations_refused_cleanly", refused);
     run.set("exhaustive", true);
-    run.set("rule", "the built ruzstd-cli binary in fresh directories: level option {absent, 0, 1, 2, 3, 4, 5, 255, 256, 'x'} (long and short flag) x output path {explicit, defaulted} x 9/12 file contents (empty, 1 byte, text, one block -1/0/+1, incompressible 300 KB, RLE, binary with NULs); every produced file is decoded by libzstd and by the tool's decompress command with explicit and with defaulted target (run from another directory). Also: every operation onto an output path that already holds nothing / an empty file / shorter garbage / longer garbage / the larger result of an earlier run (4 contents x 3 levels x 5 prior states: same bytes as in a fresh directory, file restored). Also: a directory as input, an output path in a directory that does not exist, and every strict prefix of a compressed file given to decompress (failure status required; a panic only if no output is left behind). Then every block generator of C02's decision automaton alone (with and without a level) and every ordered pair of them (level 1; thorough: also without) as one file through compress, libzstd and decompress. Implemented levels and no level: exit 0 and identical restored file. Otherwise: non-zero exit status and no panic that leaves an output file behind. non-trivial = completed round trips + cleanly refused operations");
+    run.set("rule", "the built ruzstd-cli binary in fresh directories: level option {absent, 0, 1, 2, 3, 4, 5, 255, 256, 'x'} (long and short flag) x output path {explicit, defaulted} x 9/12 file contents (empty, 1 byte, text, one block -1/0/+1, incompressible 300 KB, RLE, binary with NULs); every produced file is decoded by libzstd and by the tool's decompress command with explicit and with defaulted target (run from another directory). Also: every operation onto an output path that already holds nothing / an empty file / shorter garbage / longer garbage / the larger result of an earlier run (4 contents x 3 levels x 5 prior states, explicit and - at level 1 - defaulted output paths: same bytes as in a fresh directory, file restored). Also: a directory as input, an output path in a directory that does not exist, and every strict prefix of a compressed file given to decompress (failure status required; a panic only if no output is left behind). Then every block generator of C02's decision automaton alone (with and without a level) and every ordered pair of them (level 1; thorough: also without) as one file through compress, libzstd and decompress. Implemented levels and no level: exit 0 and identical restored file. Otherwise: non-zero exit status and no panic that leaves an output file behind. non-trivial = completed round trips + cleanly refused operations");
     run.sample(json!({"args": ["compress", "input.dat"], "then": ["decompress", "<dir>/input.dat.zst"], "cwd_of_decompress": "another directory"}));
     run.finish()
 }
